@@ -176,6 +176,8 @@ def dummy(c):
     s1 = _state(c, r1)
     if not c.isfinite(s1[0]):
         return
+    if not c.decide(c.val(r1.z) > zd):
+        return                      # the ray meets the next surface before the dummy plane: the dummy is not "between" them
     r2 = mk_rays(c, p, d)
     dum.trace(r2)
     nxt.trace(r2)
